@@ -19,16 +19,14 @@
    Hypotheses (all decidable, evaluated on every case of the correspondence): [wf] ids unique, the
    reference lists are functional, deleted objects have rows; [consistent] = the state after the flush
    satisfies every foreign key and NOT NULL constraint and rows the flush does not write keep their
-   values (the hypothesis of the property); [cyc_ok] = three facts about find_cycles the code itself
-   relies on (only per-mapper records; saves and deletes of a mapper together - the code's assert -;
-   a processor is on a cycle only with its parent record); [managed] = every foreign key reference that
+   values (the hypothesis of the property); [managed] = every foreign key reference that
    matters is handled by an active relationship whose get_all_pending list links the two rows, EXCEPT
    the two regions that are the defects refuted below. *)
 From Coq Require Import List NArith Bool Permutation Sorted.
 Import ListNotations.
 From SAV.util Require Import Topo Cycles TopoRun TopoProofs TopoCycle TopoExtra CyclesSound CyclesComplete CyclesExact.
 From SAV.orm Require Import FlushOrder FlushOrderSpec FlushOrderBase FlushOrderSort FlushOrderCover FlushOrderNeeds
-  FlushOrderCovered FlushOrderExec FlushOrderMain FlushOrderRefuted FlushOrderTotal.
+  FlushOrderCovered FlushOrderExec FlushOrderMain FlushOrderRefuted FlushOrderTotal FlushOrderCyc FlushOrderFinal.
 
 (* ------------------------------------------------------------------ the property (guarded) *)
 (* ANY object graph (any number of mappers and relationships of the three kinds, with or without
@@ -38,10 +36,10 @@ From SAV.orm Require Import FlushOrder FlushOrderSpec FlushOrderBase FlushOrderS
    immediately *)
 Theorem c31_plan_respects_fk_guarded : forall g cy layers tr,
   wf g = true -> consistent g = true ->
-  cycles std_tables g = Some cy -> cyc_ok g cy = true -> managed g cy = true ->
+  cycles std_tables g = Some cy -> managed g cy = true ->
   plan std_tables g = Layers layers -> linearizes layers g cy tr ->
   exists d', exec (g_notnull g) (db0 g) (map (stmt_of g) tr) = Some d'.
-Proof. exact plan_respects_fk_guarded_main. Qed.
+Proof. exact plan_respects_fk_guarded_final. Qed.
 Print Assumptions c31_plan_respects_fk_guarded.
 
 (* its three parts.  A (from C19): the layers respect every path of the final dependency set *)
@@ -86,6 +84,20 @@ Print Assumptions c31_m2o_unset_delete_across_cycle_refuted.
 Theorem c31_post_update_o2m_delete_parent_refuted : refuted g_post tr_post.
 Proof. exact post_update_o2m_delete_parent_refuted. Qed.
 Print Assumptions c31_post_update_o2m_delete_parent_refuted.
+
+(* ------------------------------------------------------------------ the cycle set *)
+(* three facts about find_cycles on these dependency tables that the code relies on, for EVERY graph: only
+   per-mapper save / delete / save-processor records are on cycles ([cyc_shape]); the saves and the deletes
+   of a mapper are on cycles together ([paired] - the assertion in per_state_flush_actions, which therefore
+   never fires); a processor is on a cycle only together with the save record of its parent mapper
+   ([procs_follow]).  B uses them as [cyc_ok]; here they are discharged *)
+Theorem c31_cycle_set_facts : forall g cy, wf g = true -> cycles std_tables g = Some cy -> cyc_ok g cy = true.
+Proof. exact cyc_ok_always. Qed.
+Print Assumptions c31_cycle_set_facts.
+
+Theorem c31_assertion_never_fires : forall g, wf g = true -> plan std_tables g <> PAssert.
+Proof. exact plan_never_asserts. Qed.
+Print Assumptions c31_assertion_never_fires.
 
 (* ------------------------------------------------------------------ the other outcomes *)
 Theorem c31_find_cycles_exact : forall T g,
